@@ -891,15 +891,18 @@ impl Indexable for ast::SimpleValue {
             }
             ast::SimpleValue::BangOperator(bang_operator) => bang_operator.index(ctx),
             ast::SimpleValue::CondOperator(cond_operator) => {
+                // like !if: the type is the type of the (first typed) clause value
+                let mut typ = None;
                 for clause in cond_operator.clauses() {
                     if let Some(condition) = clause.condition() {
                         condition.index(ctx);
                     }
                     if let Some(value) = clause.value() {
-                        value.index(ctx);
+                        let value_typ = value.index(ctx);
+                        typ = typ.or(value_typ);
                     }
                 }
-                None
+                typ
             }
         }
     }
